@@ -1363,6 +1363,8 @@ class Interp:
                 return Native(lambda it, args, kw, node: it.new_inst(args[0]), 'object.__new__')
             if a == '__init__':
                 return Native(lambda it, args, kw, node: K(None), 'object.__init__')
+            if a in ('__init_subclass__', '__set_name__', '__post_init__'):
+                return Native(lambda it, args, kw, node: K(None), f'object.{a}')
             raise Fail(f'super().{a} unresolved')
         if isinstance(v, ClassRef):
             r = self.class_attr(v, a, None)
@@ -1395,7 +1397,26 @@ class Interp:
             return r
         raise Fail(f'getattr {v!r}.{a} line {getattr(n, "lineno", "?")}')
 
+    def ensure_subclass_hooks(self, cls):
+        """__init_subclass__ of a base class runs once for every subclass when that subclass is defined (import time): before anything
+        of the family is looked at, the hooks of the whole family are run in definition order, with the keywords of the class statement"""
+        done = self.__dict__.setdefault('_isc_done', set())
+        for base in self.prog.mro(cls):
+            if '__init_subclass__' not in base.methods or base.qual in done:
+                continue
+            done.add(base.qual)
+            family = [c for c in self.prog.all_classes() if c is not base and any(k is base for k in self.prog.mro(c)[1:])]
+            family.sort(key=lambda c: (c.module != base.module, c.module, getattr(c.node, 'lineno', 0)))
+            for sub in family:
+                owner = next((k for k in self.prog.mro(sub)[1:] if '__init_subclass__' in k.methods), None)
+                if owner is None:
+                    continue
+                kw = {k: self.ev(e, Frame(sub.module)) for k, e in getattr(sub, 'keywords', {}).items()}
+                self.invoke(FuncRef(owner.methods['__init_subclass__'], owner.module, owner), [sub], kw)
+
     def class_attr(self, cls, a, inst):
+        if a != '__init_subclass__' and any('__init_subclass__' in k.methods for k in self.prog.mro(cls)):
+            self.ensure_subclass_hooks(cls)
         if inst is None and self.models.enum_kind(self, cls) is not None:
             mem = self.models.enum_members(self, cls)
             if a in mem:
